@@ -8,7 +8,7 @@ import (
 
 var (
 	dirsAll   = []string{"a/", "a/b/", "c/", "d/"}
-	prefixes  = []string{"", "a/", "a/b/", "c/", "a/b", "zz/", "d/", "a/"}
+	prefixes  = []string{"", "", "a/", "a/", "a/b/", "c/", "a/b", "zz/", "d/", "a/", "c/", ""}
 	tags      = []string{"red", "green", "blue", "grey", "black"}
 	tagPieces = []string{"re", "g", "bl", "e", "ack", "red", "blue"}
 )
@@ -127,7 +127,7 @@ func genSubs(rng *vlib.Rand, id int) Scenario {
 			// "one interface per key" assumption would not hold
 			ws.Iface.Cache = 0
 		}
-		n := rng.Range(15, maxOps)
+		n := rng.Range(40, maxOps)
 		nkeys := rng.Range(2, 6)
 		for i := 0; i < n; i++ {
 			ws.Ops = append(ws.Ops, genWriteOp(rng, sc.Backend, dirsAll, nkeys))
@@ -263,7 +263,47 @@ func genShared(rng *vlib.Rand, id int) Scenario {
 	return sc
 }
 
+// genHooksDirected: records are stored first, then a hook that vetoes in PrePut is
+// registered, then the stored records are deleted / modified / re-put: the
+// load-modify-put operations meet a veto by construction.
+func genHooksDirected(rng *vlib.Rand, id int) Scenario {
+	sc := Scenario{ID: id, Class: "hooks", Delay: Delay{Mode: "idle"}}
+	if rng.Chance(60, 100) {
+		sc.Backend, sc.Shadow = "hashmap", rng.Bool()
+	} else {
+		sc.Backend = "bbolt"
+	}
+	ws := WriterSpec{ID: 0, Iface: allPriv()}
+	const nk = 6
+	for n := 0; n < nk; n++ {
+		ws.Ops = append(ws.Ops, OpSpec{Kind: "put", Dir: "a/", N: n, Score: genScore(rng), Tag: vlib.Pick(rng, tags...)})
+	}
+	m := rng.Range(20, 40)
+	for i := 0; i < m; i++ {
+		op := OpSpec{Kind: pickKind(rng, []string{"del", "secret", "crown", "insert", "get", "put"}, []int{25, 15, 15, 20, 10, 15}), Dir: "a/", N: rng.Intn(nk)}
+		if op.Kind == "put" {
+			op.Score, op.Tag = genScore(rng), vlib.Pick(rng, tags...)
+		}
+		ws.Ops = append(ws.Ops, op)
+	}
+	sc.Writers = []WriterSpec{ws}
+	h0 := HookSpec{ID: 0, Prefix: vlib.Pick(rng, "", "a/"), PrePut: true, PreGet: rng.Bool(), PostGet: rng.Bool(), VetoPhase: "preput", VetoMod: 2, VetoRem: rng.Intn(2),
+		ShareWith: -1, RegAt: nk, CancelAt: vlib.Pick(rng, -1, -2)}
+	sc.Hooks = append(sc.Hooks, h0)
+	if rng.Bool() {
+		h1 := HookSpec{ID: 1, Prefix: "a/", PreGet: rng.Bool(), PostGet: true, PrePut: rng.Bool(), ShareWith: -1, RegAt: rng.Range(nk, nk+m-1), CancelAt: -1}
+		if rng.Bool() {
+			h1.Cond = genCond(rng, 1)
+		}
+		sc.Hooks = append(sc.Hooks, h1)
+	}
+	return sc
+}
+
 func genHooks(rng *vlib.Rand, id int) Scenario {
+	if rng.Chance(25, 100) {
+		return genHooksDirected(rng, id)
+	}
 	sc := Scenario{ID: id, Class: "hooks", Delay: Delay{Mode: "idle"}}
 	if rng.Chance(60, 100) {
 		sc.Backend, sc.Shadow = "hashmap", rng.Bool()
@@ -280,7 +320,7 @@ func genHooks(rng *vlib.Rand, id int) Scenario {
 			n = rng.Range(20, 40)
 		}
 		for i := 0; i < n; i++ {
-			op := OpSpec{Kind: pickKind(rng, []string{"get", "put", "del"}, []int{40, 40, 20}), Dir: vlib.Pick(rng, dirs...), N: rng.Intn(8)}
+			op := OpSpec{Kind: pickKind(rng, []string{"get", "put", "del", "secret", "crown", "insert"}, []int{36, 36, 14, 4, 3, 7}), Dir: vlib.Pick(rng, dirs...), N: rng.Intn(8)}
 			if op.Kind == "put" {
 				op.Score, op.Tag = genScore(rng), vlib.Pick(rng, tags...)
 			}
@@ -300,13 +340,32 @@ func genHooks(rng *vlib.Rand, id int) Scenario {
 				hs.PreGet, hs.PostGet, hs.PrePut = rng.Bool(), rng.Bool(), rng.Bool()
 			}
 		}
+		var declared, declaredRec []string
+		if hs.PreGet {
+			declared = append(declared, "preget")
+		}
+		if hs.PostGet {
+			declared, declaredRec = append(declared, "postget"), append(declaredRec, "postget")
+		}
+		if hs.PrePut {
+			declared, declaredRec = append(declared, "preput"), append(declaredRec, "preput")
+		}
 		if rng.Chance(35, 100) {
-			hs.VetoPhase = vlib.Pick(rng, "preget", "postget", "preput")
+			// mostly a phase the hook declares (a veto in an undeclared phase is never consulted)
+			if len(declared) > 0 && rng.Chance(85, 100) {
+				hs.VetoPhase = vlib.Pick(rng, declared...)
+			} else {
+				hs.VetoPhase = vlib.Pick(rng, "preget", "postget", "preput")
+			}
 			hs.VetoMod = rng.Range(2, 4)
 			hs.VetoRem = rng.Intn(hs.VetoMod)
 		}
-		if rng.Chance(35, 100) {
-			hs.ReplPhase = vlib.Pick(rng, "postget", "preput")
+		if rng.Chance(40, 100) {
+			if len(declaredRec) > 0 && rng.Chance(85, 100) {
+				hs.ReplPhase = vlib.Pick(rng, declaredRec...)
+			} else {
+				hs.ReplPhase = vlib.Pick(rng, "postget", "preput")
+			}
 			hs.ReplMod = rng.Range(2, 3)
 			hs.ReplRem = rng.Intn(hs.ReplMod)
 		}
